@@ -320,9 +320,11 @@ func (fv *FuncVerifier) execRangeMap(s *ast.RangeStmt, ls *LoopSpec, ord int, la
 		},
 		pre: func(st *State) {
 			k := st.vars[curKey]
+			if mt, ok := fv.typeOf(s.X).Underlying().(*types.Map); ok {
+				fv.assumeTyped(st, k, mt.Key())
+			}
 			if kObj != nil {
 				st.vars[kObj] = k
-				fv.assumeTyped(st, k, kObj.Type())
 			}
 			if vObj != nil {
 				st.vars[vObj] = fv.def(vObj.Name(), sel(val0, k, m.Sort.Elem))
